@@ -659,6 +659,17 @@ def interp_oracle(ctx: Ctx, kind, case, x, y, xn, polys, tail, w, kw):
                 if r1.shape != (len(xn),) or not np.all(np.abs(r1 - rc[:, cdx]) <= unit * lam * ymax):
                     V(ctx, f"interp:{kind}:ndim", f"{kind}: component {cdx} of {1 + len(tail)}-d data differs from the 1-d call", case)
                     break
+        # 6. the interpolant is a function of the abscissa: the value at x_new[j] does not depend on the other new
+        #    abscissae, their number or their order
+        if len(xn) > 1:
+            q = np.array(rng.sample(range(len(xn)), len(xn)))
+            rq = call(x, y, xn[q])
+            j = rng.randrange(len(xn))
+            r1 = call(x, y, xn[j:j + 1])
+            if rq.shape != r0.shape or not np.all(np.abs(rq - r0[q]) <= unit * scale[q]) or not np.all(np.abs(r1[0] - r0[j]) <= unit * scale[j]):
+                V(ctx, f"interp:{kind}:pointwise", f"{kind}: the value at a new abscissa depends on the other new abscissae or their order "
+                  f"(reordered x_new: {float(np.max(np.abs(rq - r0[q]))) if rq.shape == r0.shape else 'shape'!s}, "
+                  f"x_new[{j}] alone: {float(np.max(np.abs(r1[0] - r0[j]))):.3e}; scale {ymax:.3e})", {**case, "xn_order": q.tolist()})
         # 5. polynomial reproduction below the window degree (lagrange only)
         if kind == "lagrange" and polys:
             t = (xn - x[0]) / (x[-1] - x[0])
@@ -861,6 +872,31 @@ def scipy_part(ctx: Ctx, drv):
                         for cdx in range(dim):
                             if abs(frac(r[a, cdx]) - mv[a][cdx]) > frac(1e-14 * amp * ymax):
                                 ctx.disagree("linear value", {**case, "at": [a, cdx]}, float(mv[a][cdx]), float(r[a, cdx]))
+                if kind in ("cubic", "interpolated_univariate_spline") and n > 32:
+                    ctx.count("spline-vs-model:skipped(n>32: exact elimination is slow)")
+                elif kind in ("cubic", "interpolated_univariate_spline"):
+                    # the specification `nakSpline` (not-a-knot cubic spline; samples in any order for `cubic`)
+                    perm = np.array(rng.sample(range(n), n)) if kind == "cubic" else np.arange(n)
+                    m = drv.ask1(f"c20 nakspline {dim} {rl(frac(v) for v in x[perm])} "
+                                 f"{rrows([frac(v) for v in row] for row in rows[perm])} {rl(frac(v) for v in xn)}")
+                    if not m.startswith("ok "):
+                        ctx.disagree(f"{kind} error branch", case, m, "value")
+                    else:
+                        cert, body = m[3:].split(" ", 1)
+                        if cert != "1":
+                            ctx.disagree("the moments the spline model evaluates do not satisfy the defining equations NakEqs", case, cert, "1")
+                        mv = prows(body)
+                        r = np.asarray(call_interp(kind, x[perm], y[perm], xn), dtype=float).reshape(len(xn), dim)
+                        W = np.asarray(call_interp(kind, x[perm], np.eye(n), xn), dtype=float)
+                        cond = np.abs(W) @ np.abs(rows[perm])
+                        amp = 1.0 + float(np.max(np.abs(x - x.mean())) / np.min(np.diff(x)))
+                        ratio = float(np.max(np.diff(x)) / np.min(np.diff(x)))
+                        for a in range(len(xn)):
+                            for cdx in range(dim):
+                                if abs(frac(r[a, cdx]) - mv[a][cdx]) > frac(1e-13 * amp * ratio ** 2 * float(cond[a, cdx]) + 1e-300):
+                                    ctx.disagree(f"{kind} vs the not-a-knot cubic spline (model)", {**case, "at": [a, cdx]},
+                                                 float(mv[a][cdx]), float(r[a, cdx]))
+                        ctx.count(f"spline-vs-model:{kind}")
                 if kind == "barycentric_interpolator":
                     # the specification `barycentric` (the interpolating polynomial through all samples, in any order)
                     perm = np.array(rng.sample(range(n), n))
@@ -978,7 +1014,34 @@ def nputil_part(ctx: Ctx, drv):
 # DOP
 
 
+def gen_weak_geometry(rng):
+    """regular but weak designs of graded conditioning: satellites inside a patch of sky of 1..60 degrees width at every
+    elevation, clusters around the zenith, satellites near one elevation (on a cone -sin(el) = const the design is singular)"""
+    n = rng.choice([4, 4, 5, 6, 8, 12])
+    width = math.radians(10 ** rng.uniform(0, math.log10(60)))
+    c = rng.random()
+    if c < 0.5:
+        e0 = math.radians(rng.uniform(5, 85))
+        a0 = rng.uniform(0, 2 * math.pi)
+        el = [min(max(e0 + width * rng.uniform(-0.5, 0.5), math.radians(1)), math.pi / 2) for _ in range(n)]
+        az = [a0 + width * rng.uniform(-0.5, 0.5) / max(math.cos(e0), 0.05) for _ in range(n)]
+        fl_ = "patch"
+    elif c < 0.75:
+        el = [math.pi / 2 - width * math.sqrt(rng.random()) / 2 for _ in range(n)]
+        az = [rng.uniform(0, 2 * math.pi) for _ in range(n)]
+        fl_ = "zenith-cluster"
+    else:
+        e0 = math.radians(rng.uniform(5, 80))
+        dev = math.radians(10 ** rng.uniform(-1.5, 1))
+        el = [min(max(e0 + dev * rng.uniform(-1, 1), math.radians(1)), math.pi / 2) for _ in range(n)]
+        az = [rng.uniform(0, 2 * math.pi) for _ in range(n)]
+        fl_ = "near-one-elevation"
+    return np.array(az), np.array(el), "weak:" + fl_
+
+
 def gen_geometry(rng):
+    if rng.random() < 0.3:
+        return gen_weak_geometry(rng)
     n = rng.randint(4, 40) if rng.random() < 0.7 else rng.randint(4, 7)
     c = rng.random()
     if c < 0.6:
@@ -1050,10 +1113,31 @@ def azimuth_rotations(rng, az):
     ]
 
 
-def dops_part(ctx: Ctx, drv):
+def exact_det_normal(az, el):
+    """det(HtH) of the design built from the doubles cos/sin the code obtains, in exact rational arithmetic (rank 4 iff != 0)"""
+    H = [[-frac(np.cos(e)) * frac(np.cos(a)), -frac(np.cos(e)) * frac(np.sin(a)), -frac(np.sin(e)), Fraction(1)] for a, e in zip(az, el)]
+    Q = [[sum(r[i] * r[j] for r in H) for j in range(4)] for i in range(4)]
+
+    def det(m):
+        if len(m) == 1:
+            return m[0][0]
+        return sum((-1) ** j * m[0][j] * det([row[:j] + row[j + 1:] for row in m[1:]]) for j in range(len(m)) if m[0][j] != 0)
+    return det(Q)
+
+
+def dops_part(ctx: Ctx, drv, info):
     rng = ctx.rng
     ncases = ctx.budget(400, 10000)
     names = DOP_NAMES
+    # the guard of compute_dops as the source writes it (translator) is the one the driver was built with
+    gtext, glimit = info["dop_guard"]
+    want = gtext.replace(" ", "_") + " " + ("none" if glimit is None else rs(glimit))
+    got = drv.ask1("c20 dopguard")
+    if got != want:
+        ctx.disagree("driver was not built from the regenerated singularity guard of compute_dops", {"guard": gtext}, got, want)
+    ctx.extra["dop_guard"] = {"source": gtext, "cond_limit": None if glimit is None else float(glimit)}
+    # below this condition number of HtH a returned None is judged (the limit of the source when it has one)
+    cond_judged = 1e12 if glimit is None else min(1e12, float(glimit))
     for ci in range(ncases):
         with guard(ctx, "dops"):
             az, el, flv = gen_geometry(rng)
@@ -1064,9 +1148,14 @@ def dops_part(ctx: Ctx, drv):
             ctx.count("dops:n<=6" if n <= 6 else "dops:n<=20" if n <= 20 else "dops:n<=40")
             H = np.stack((-np.cos(el) * np.cos(az), -np.cos(el) * np.sin(az), -np.sin(el), np.ones(n)), axis=1)
             cond = float(np.linalg.cond(H.T @ H))
+            ctx.count("dops:cond(HtH)<1e%d" % next((k for k in (2, 4, 6, 8, 10, 12) if cond < 10 ** k), 99))
             sats = [[frac(np.cos(e)), frac(np.sin(e)), frac(np.cos(a)), frac(np.sin(a))] for a, e in zip(az, el)]
-            m = drv.ask1("c20 dops " + rrows(sats))
+            m = drv.ask1(f"c20 dops {rs(frac(cond) if math.isfinite(cond) else Fraction(10) ** 40)} " + rrows(sats))
             st, d = run_dops(az, el)
+            # ---- oracle: a design of rank 4 whose condition number is below the limit of the code is not refused
+            if st == "none" and cond < cond_judged and exact_det_normal(az, el) != 0:
+                V(ctx, "dops:none-for-regular-geometry", f"compute_dops returned None x 5 for {n} satellites ({flv}) although the design has "
+                  f"rank 4: cond(HtH) = {cond:.3g}, cond(H) = {math.sqrt(cond):.3g}, det(HtH) = {float(exact_det_normal(az, el)):.3g}", case)
             well = cond < 1e10 and m != "singular"
             if st in ("raises", "invalid"):
                 if well:
@@ -1077,9 +1166,7 @@ def dops_part(ctx: Ctx, drv):
                 continue
             if st == "none" or m == "singular":
                 ctx.count("dops:singular")
-                if cond < 1e12 and (st == "none") != (m == "singular"):
-                    if st == "none":
-                        V(ctx, "dops:none-for-regular-geometry", f"compute_dops returned None x 5 for {n} satellites with cond(HtH) = {cond:.3g}", case)
+                if cond < cond_judged and (st == "none") != (m == "singular"):
                     ctx.disagree("compute_dops singularity", case, m[:80], [st, d])
                 continue
             if not well:
@@ -1331,6 +1418,35 @@ def linreg_part(ctx: Ctx, drv):
                     V(ctx, "linreg:normal-equations", f"residuals not orthogonal to [1, x]: {res.sum():.3e}, {(res * x).sum():.3e}", case)
                 if exact and (abs(sl - b) > 1e-9 * (abs(b) + 1) or abs(ic - a) > 1e-9 * (abs(a) + 1) * xs_):
                     V(ctx, "linreg:exact-line", f"data on the line {a}+{b}x fitted as {ic!r}+{sl!r}x", case)
+            # ---- oracle: rms, r_square, slope_sigma, interception_sigma are the textbook quantities of the fit returned,
+            #      on the samples kept (exact rational arithmetic on the doubles the object reports)
+            try:
+                kx, ky = [frac(v) for v in np.asarray(lr.x, dtype=float)], [frac(v) for v in np.asarray(lr.y, dtype=float)]
+                nk = len(kx)
+                if nk >= 3 and len(set(kx)) >= 2:
+                    fi, fs = frac(ic), frac(sl)
+                    rr = [yv - fi - fs * xv for xv, yv in zip(kx, ky)]
+                    ssr = sum(r_ * r_ for r_ in rr)
+                    xb, yb = sum(kx) / nk, sum(ky) / nk
+                    sxx, sst = sum((v - xb) ** 2 for v in kx), sum((v - yb) ** 2 for v in ky)
+                    want = {"rms": ssr / nk, "slope_sigma": ssr / (nk - 2) / sxx,
+                            "interception_sigma": ssr / (nk - 2) * sum(v * v for v in kx) / (nk * sxx)}
+                    floor_ = frac((1e-9 * ys) ** 2)      # squares of quantities that are zero up to the rounding of the fit
+                    for nm_, w2 in want.items():
+                        g = float(getattr(lr, nm_))
+                        slack = floor_ * {"rms": 1, "slope_sigma": 1 / sxx, "interception_sigma": 1 + xb * xb / sxx}[nm_]
+                        if not (math.isfinite(g) and g >= 0) or abs(frac(g) ** 2 - w2) > Fraction(1, 10**8) * w2 + slack:
+                            V(ctx, f"linreg:{nm_}", f"LinearRegression.{nm_} = {g!r}, the fit returned gives {math.sqrt(float(w2))!r}", case)
+                    if sst > floor_ * nk:
+                        g = float(lr.r_square)
+                        if abs(frac(g) - (1 - ssr / sst)) > Fraction(1, 10**8) + floor_ * nk / sst or not -1e-9 <= g <= 1 + 1e-9:
+                            V(ctx, "linreg:r_square", f"LinearRegression.r_square = {g!r}, 1 - SSR/SST = {float(1 - ssr / sst)!r}", case)
+                    ym = np.asarray(lr.y_modeled, dtype=float)
+                    if ym.shape != (nk,) or not np.all(np.abs(ym - (ic + sl * np.asarray(lr.x, dtype=float))) <= 1e-9 * ys * xs_):
+                        V(ctx, "linreg:y_modeled", "LinearRegression.y_modeled is not interception + slope * x on the samples kept", case)
+                    ctx.count("linreg:statistics-checked")
+            except Exception as e:  # noqa
+                V(ctx, f"linreg:statistics:raises:{type(e).__name__}", f"a statistic of LinearRegression raised {type(e).__name__}: {str(e)[:100]}", case)
             if m == "degenerate":
                 ctx.count("linreg:degenerate")
                 continue
@@ -1375,7 +1491,7 @@ def run(ctx: Ctx):
     ctx.proof = common.prove("C20")
     if ctx.thorough and ctx.proof.ok:
         mods = ["Midgard.Props.C20", "Midgard.Proofs.C20Lagrange", "Midgard.Proofs.C20Dop", "Midgard.Proofs.C20Algebra",
-                "Midgard.Proofs.C20Deriv", "Midgard.Proofs.C20Bary", "Midgard.Proofs.C20Nputil", "Midgard.Proofs.C20Spherical",
+                "Midgard.Proofs.C20Deriv", "Midgard.Proofs.C20Bary", "Midgard.Proofs.C20Nputil", "Midgard.Proofs.C20Spherical", "Midgard.Proofs.C20Spline",
                 "Midgard.Model.Numeric", "Midgard.Spec.UnitsSI", "Midgard.Generated.C20Tables"]
         import subprocess
         with common.lake_lock():
@@ -1417,7 +1533,7 @@ def run(ctx: Ctx):
     import sys
     T.types_part(ctx, sys.modules[__name__], info)
     nputil_part(ctx, drv)
-    dops_part(ctx, drv)
+    dops_part(ctx, drv, info)
     plate_part(ctx, drv, info)
     pole_forms_part(ctx, drv, info)
     linreg_part(ctx, drv)
@@ -1589,7 +1705,7 @@ def replay(payload):
             H = np.stack((-np.cos(el) * np.cos(az), -np.cos(el) * np.sin(az), -np.sin(el), np.ones(len(az))), axis=1)
             cond = float(np.linalg.cond(H.T @ H))
             tol = 256 * EPS * cond + 1e-12
-            bad = st != "ok" and cond < 1e10
+            bad = (st != "ok" and cond < 1e10) or (st == "none" and cond < 1e12 and exact_det_normal(az, el) != 0)
             if st == "ok":
                 g, pd, t, h, v = d0
                 bad = abs(g * g - pd * pd - t * t) > 1e-12 * g * g or abs(pd * pd - h * h - v * v) > 1e-12 * pd * pd
